@@ -911,7 +911,7 @@ class PrefixedArrayAnyLength(Unit):
         ks = loop_keys(fsend, T_ + 'PrefixedArray.__send', kind=ast.For)
         kr = loop_keys(fread, T_ + 'PrefixedArray.__read', kind=ast.ListComp)
         if len(ks) != 1 or len(kr) != 1:
-            raise RuntimeError('PrefixedArray.__send/__read no longer have one loop / one comprehension')
+            raise Unsupported('contract does not fit the code any more: PrefixedArray.__send/__read no longer have one loop / one comprehension')
         I.loop_specs[ks[0]] = ForSpec('elements', lambda I_, it: it.n, lambda I_, it, j: ('elem', j),
                                       lambda I_, fr, j: And(unit.count == j, unit.length_sent == 1),
                                       lambda I_, fr, j: setattr(unit, 'count', j))
@@ -1056,4 +1056,10 @@ def units(tier):
     us += [PrefixedArrayUnit(VarInt, Byte), PrefixedArrayUnit(Integer, Short), PrefixedArrayUnit(VarInt, VarInt),
            PrefixedArrayUnit(VarInt, Byte, nested=True)]
     us += [PrefixedArrayAnyLength(), Dispatch()]
+    # VarInt / VarLong are scalar wire types too: their byte-level contracts (C03) are claimed here as well
+    from . import c03
+    for u, nm in ((c03.ReadArbitrary(VarInt), 'C02.VarInt.read'), (c03.ReadArbitrary(c03.VarLong), 'C02.VarLong.read'),
+                  (c03.SendCanonical(VarInt, 32), 'C02.VarInt.send'), (c03.SendCanonical(c03.VarLong, 64), 'C02.VarLong.send')):
+        u.prop, u.name = 'C02', nm
+        us.append(u)
     return us
